@@ -247,7 +247,7 @@ func verifyFunc(P *Program, name string, tier Tier, outDir string, known []Known
 	}
 	defer sess.Close()
 	x := &Exec{P: P, fn: fn, fname: name, fc: fc, sess: sess, reg: newRegistry(), declared: map[string]int{}, touched: map[string]string{},
-		obligs: map[string]*Oblig{}, tier: tier, outDir: outDir, trusted: map[string]bool{}, loops: map[*ssa.Function]*loopInfo{}, specDefs: map[string][]string{}, covered: map[string]bool{}, constrained: map[string]bool{}, boxed: map[string]Val{}, unboxed: map[string]Val{}, varargs: map[string]map[int]Val{}}
+		obligs: map[string]*Oblig{}, tier: tier, outDir: outDir, trusted: map[string]bool{}, loops: map[*ssa.Function]*loopInfo{}, specDefs: map[string][]string{}, covered: map[string]bool{}, constrained: map[string]bool{}, boxed: map[string]Val{}, matched: map[int]bool{}, unboxed: map[string]Val{}, varargs: map[string]map[int]Val{}}
 	if fn.Pkg != nil {
 		x.pkg = fn.Pkg.Pkg
 	} else if fn.Parent() != nil {
